@@ -99,7 +99,7 @@ def term(c, o):
 def predict_text(c, o):
     t = term(c, o)
     body = "Definition c : tcase := %s.\n" % t
-    body += "Eval vm_compute in (map (fun v => first_bad v proj_c02 store0 c 0%N) variants, spec_ok proj_c02 c).\n"
+    body += "Eval vm_compute in (map (fun v => first_bad v false proj_c02 store0 c 0%N) variants, spec_ok proj_c02 c).\n"
     ok, out, _ = vlib.coq_eval("C02p", [CHECK_MODULE], body)
     return "first op index the model does not predict, per variant; spec_ok: " + out.strip()
 
